@@ -240,6 +240,10 @@ impl Op {
 
 #[derive(Clone, Debug, PartialEq, Eq, Serialize, Deserialize)]
 pub struct Step {
+    /// `cross-env` (C02 only): bit i set = operand i is replaced by a structurally identical twin
+    /// that lives in a second environment (bit 7 clear) or in no environment at all (bit 7 set)
+    #[serde(default)]
+    pub foreign: u8,
     pub client: u8,
     /// keep the result as a live handle (false = `noise-build`: result is dropped at once)
     pub keep: bool,
@@ -369,10 +373,12 @@ pub fn gen_plan(rng: &mut Prng, property: &str, tier: &Tier) -> EnvPlan {
         (0..k).map(|_| rng.below(1 << 16)).collect()
     };
 
+    let cross_env = rng.coin();
     let mut steps = Vec::with_capacity(nsteps);
     // every run starts by building a few variables so that operands are not all constants
     for i in 0..nvars.min(3) {
         steps.push(Step {
+            foreign: 0,
             client: 0,
             keep: true,
             op: Op::Var(i),
@@ -429,6 +435,7 @@ pub fn gen_plan(rng: &mut Prng, property: &str, tier: &Tier) -> EnvPlan {
                     _ => Op::Redo(sel(rng)),
                 };
                 steps.push(Step {
+                    foreign: 0,
                     client,
                     keep: true,
                     op,
@@ -525,7 +532,12 @@ pub fn gen_plan(rng: &mut Prng, property: &str, tier: &Tier) -> EnvPlan {
                 }
             }
         };
-        steps.push(Step { client, keep, op });
+        let foreign = if property == "C02" && cross_env && rng.chance(faults.rate.max(10), 100) {
+            (rng.range(1, 7) as u8) | if rng.coin() { 0x80 } else { 0 }
+        } else {
+            0
+        };
+        steps.push(Step { foreign, client, keep, op });
     }
 
     EnvPlan {
@@ -728,6 +740,8 @@ pub struct Exec<'p, W: World> {
     n: usize,
     names: Vec<Rc<String>>,
     env: Rc<BDDEnv<W::S>>,
+    /// a second, long-lived environment: source of `cross-env` operands (C02)
+    env2: BDDEnv<W::S>,
     /// live handles keyed by a stable id: 0/1 = the constants, k+2 = created by plan step k
     handles: BTreeMap<usize, Handle<W::S>>,
     cur_step: usize,
@@ -823,6 +837,7 @@ impl<'p, W: World> Exec<'p, W> {
         let names: Vec<Rc<String>> = plan.names.iter().map(|s| Rc::new(s.clone())).collect();
         let env = Rc::new(BDDEnv::new());
         let mut ex = Self {
+            env2: BDDEnv::new(),
             plan,
             n: plan.nvars,
             names,
@@ -1125,7 +1140,22 @@ impl<'p, W: World> Exec<'p, W> {
     fn raw_step(&mut self, step_no: usize, step: &Step) -> Result<(), Violation> {
         let op = &step.op;
         let opname = op.name();
-        let args: Vec<Rc<BDD<W::S>>> = op.selectors().iter().map(|s| self.pick(*s)).collect();
+        let mut args: Vec<Rc<BDD<W::S>>> = op.selectors().iter().map(|s| self.pick(*s)).collect();
+        if self.prop() == "C02" && step.foreign != 0 {
+            let names = self.names.clone();
+            for (i, a) in args.iter_mut().enumerate().take(6) {
+                if (step.foreign >> i) & 1 == 1 && a.is_choice() {
+                    *a = if step.foreign & 0x80 != 0 {
+                        let tt = self.walk(a).unwrap_or(0);
+                        canon64::<W::S>(tt, self.n, &|k| W::sym(&names, k))
+                    } else {
+                        recreate(&self.env2, a)
+                    };
+                    bump(&mut self.stats, "fault.cross-env");
+                    self.faults_fired += 1;
+                }
+            }
+        }
         self.probe_raw(op, &args);
         let size_before = self.env.size();
 
